@@ -180,9 +180,32 @@ fn run(input: &Tree) -> Option<Tree> {
             let b = EcIndividual::new(vec64(&ib[0])?, tres(&ib[1])?);
             ops(&a, &b, None)
         }
+        13 => {
+            // floating-point results: the total is the IN-ORDER sum (addition is not associative there)
+            let bits: Vec<u64> = l.get(2)?.list()?.iter().map(Tree::u64).collect::<Option<_>>()?;
+            let vals: Vec<f64> = bits.iter().map(|b| f64::from_bits(*b)).collect();
+            let fb = |x: f64| if x.is_nan() { a(0x7FF8_0000_0000_0000u64 as i128) } else { a(x.to_bits() as i128) };
+            match l.get(1)?.int()? {
+                0 => {
+                    let r: TestResults<Score<f64>> = vals.into();
+                    let mut v = vec![fb(r.total_result.0)];
+                    v.extend(r.results.iter().map(|s| fb(s.0)));
+                    L(v)
+                }
+                1 => {
+                    let r: TestResults<Error<f64>> = vals.into_iter().collect();
+                    let mut v = vec![fb(r.total_result.0)];
+                    v.extend(r.results.iter().map(|s| fb(s.0)));
+                    L(v)
+                }
+                _ => return None,
+            }
+        }
         _ => return None,
     })
 }
+
+const FVALS: &[f64] = &[1e16, 1.0, -1e16, 0.1, 3.0, 9007199254740992.0, -0.0, 0.0, 1e308, -1e308, 5e-324, 0.5, -1.0, 1e-9, 123456.789];
 
 const VALS: &[i64] = &[i64::MIN, i64::MIN + 1, -2, -1, 0, 1, 2, i64::MAX - 1, i64::MAX];
 
@@ -257,6 +280,21 @@ fn gen(tier: &str, rng: &mut Sm) -> Gen {
         let (x, y) = (rng.next() as i64, rng.next() as i64);
         g.inputs.push(tl![A(rng.below(2) as i128), a(x), a(if rng.chance(1, 4) { x } else { y })]);
     }
-    g.meta("generator", "all pairs over 9 boundary values for Score/Error/TestResult/singleton TestResults; random result vectors (equal totals with different cases, reversed, empty), individuals with equal/different genomes, aggregation, scoring; min / max / clamp; clone_from (also through Vec); individuals scored by a single score-or-error result");
+    // float results: long vectors whose in-order sum differs from any regrouped sum
+    let fl = |v: &[f64]| L(v.iter().map(|x| a(x.to_bits() as i128)).collect());
+    let mut big = vec![1e16];
+    big.extend(std::iter::repeat(1.0).take(20));
+    for pol in 0..2i128 {
+        g.inputs.push(tl![A(13), a(pol), fl(&big)]);
+        g.inputs.push(tl![A(13), a(pol), fl(&[])]);
+        g.inputs.push(tl![A(13), a(pol), fl(&[-0.0])]);
+        g.inputs.push(tl![A(13), a(pol), fl(&[0.1, 0.2, 0.3])]);
+    }
+    for _ in 0..n / 5 {
+        let len = [0usize, 1, 2, 3, 7, 16, 17, 20, 33, 40, 70][rng.below(11)];
+        let v: Vec<f64> = (0..len).map(|_| if rng.chance(1, 3) { 1.0 } else { *rng.pick(FVALS) }).collect();
+        g.inputs.push(tl![A(13), a(rng.below(2) as i128), fl(&v)]);
+    }
+    g.meta("generator", "all pairs over 9 boundary values for Score/Error/TestResult/singleton TestResults; random result vectors (equal totals with different cases, reversed, empty), individuals with equal/different genomes, aggregation, scoring; min / max / clamp; clone_from (also through Vec); individuals scored by a single score-or-error result; f64 results (vectors of 0..70 values of very different magnitudes: the in-order sum differs from regrouped sums)");
     g
 }
